@@ -420,27 +420,201 @@ Proof.
   rewrite !app_length, E. cbn [length]. specialize (IH false Hts). lia.
 Qed.
 
+Lemma row_terms_ok : forall x y z w, Forall term_ok (row_terms x y z w).
+Proof.
+  intros x y z w. unfold row_terms.
+  assert (A0 : is_axis 0) by (left; reflexivity).
+  assert (A1 : is_axis 1) by (right; left; reflexivity).
+  assert (A2 : is_axis 2) by (right; right; reflexivity).
+  apply Forall_app; split; [destruct (x =? 0) eqn:E; [constructor|constructor; [split; [exact A0|lia]|constructor]]|].
+  apply Forall_app; split; [destruct (y =? 0) eqn:E; [constructor|constructor; [split; [exact A1|lia]|constructor]]|].
+  apply Forall_app; split; [destruct (z =? 0) eqn:E; [constructor|constructor; [split; [exact A2|lia]|constructor]]|].
+  destruct (w =? 0) eqn:E; [constructor|constructor; [cbn; lia|constructor]].
+Qed.
+
+Lemma fold_apply_app : forall a b r, fold_left term_apply (a ++ b) r = fold_left term_apply b (fold_left term_apply a r).
+Proof. intros. apply fold_left_app. Qed.
+Lemma fold_nt_app : forall a b r, fold_left term_nt (a ++ b) r = fold_left term_nt b (fold_left term_nt a r).
+Proof. intros. apply fold_left_app. Qed.
+
+Lemma row_terms_value : forall x y z w,
+  fold_left term_apply (row_terms x y z w) (0, 0, 0, 0) = (x, y, z, w).
+Proof.
+  intros x y z w. unfold row_terms. rewrite !fold_apply_app.
+  assert (E1 : fold_left term_apply (if x =? 0 then [] else [TRot 0 x]) (0,0,0,0) = (x,0,0,0)).
+  { destruct (x =? 0) eqn:E; cbn [fold_left term_apply add_at]; [assert (x = 0) by lia; subst; reflexivity|].
+    repeat match goal with |- (_, _) = (_, _) => f_equal end; lia. }
+  rewrite E1.
+  assert (E2 : fold_left term_apply (if y =? 0 then [] else [TRot 1 y]) (x,0,0,0) = (x,y,0,0)).
+  { destruct (y =? 0) eqn:E; cbn [fold_left term_apply add_at]; [assert (y = 0) by lia; subst; reflexivity|].
+    repeat match goal with |- (_, _) = (_, _) => f_equal end; lia. }
+  rewrite E2.
+  assert (E3 : fold_left term_apply (if z =? 0 then [] else [TRot 2 z]) (x,y,0,0) = (x,y,z,0)).
+  { destruct (z =? 0) eqn:E; cbn [fold_left term_apply add_at]; [assert (z = 0) by lia; subst; reflexivity|].
+    repeat match goal with |- (_, _) = (_, _) => f_equal end; lia. }
+  rewrite E3.
+  destruct (w =? 0) eqn:E; cbn [fold_left term_apply add_at]; [assert (w = 0) by lia; subst; reflexivity|].
+  repeat match goal with |- (_, _) = (_, _) => f_equal end; lia.
+Qed.
+
+Lemma term_nt_120 : forall ts, fold_left term_nt ts 120 = 120.
+Proof. induction ts as [|[i v|w] ts IH]; cbn; [reflexivity|exact IH|exact IH]. Qed.
+
+Lemma row_terms_nt : forall x y z w, (x, y, z) <> (0, 0, 0) ->
+  fold_left term_nt (row_terms x y z w) 32 = 120.
+Proof.
+  intros x y z w Hnz. unfold row_terms.
+  destruct (x =? 0) eqn:Ex; [|cbn [app fold_left term_nt]; apply term_nt_120].
+  destruct (y =? 0) eqn:Ey; [|cbn [app fold_left term_nt]; apply term_nt_120].
+  destruct (z =? 0) eqn:Ez; [|cbn [app fold_left term_nt]; apply term_nt_120].
+  exfalso. apply Hnz. assert (x = 0) by lia. assert (y = 0) by lia. assert (z = 0) by lia. subst. reflexivity.
+Qed.
+
+Lemma row_terms_nonempty : forall x y z w, (x, y, z) <> (0, 0, 0) -> row_terms x y z w <> [].
+Proof.
+  intros x y z w Hnz E. apply (f_equal (fun l => fold_left term_nt l 32)) in E.
+  rewrite (row_terms_nt x y z w Hnz) in E. discriminate.
+Qed.
+
 (* THE ROW THEOREM: printing a row and parsing it back gives the same four numbers, for all integers *)
 Theorem row_roundtrip : forall x y z w, (x, y, z) <> (0, 0, 0) ->
   parse_triplet_part (make_triplet_part (x, y, z) w 120) 32 = Ok ((x, y, z, w), 120).
 Proof.
   intros x y z w Hnz. rewrite make_part_is_render. unfold parse_triplet_part.
-  assert (A0 : is_axis 0) by (left; reflexivity).
-  assert (A1 : is_axis 1) by (right; left; reflexivity).
-  assert (A2 : is_axis 2) by (right; right; reflexivity).
-  assert (Hok : Forall term_ok (row_terms x y z w)).
-  { unfold row_terms.
-    destruct (x =? 0) eqn:Ex, (y =? 0) eqn:Ey, (z =? 0) eqn:Ez, (w =? 0) eqn:Ew; cbn [app];
-      repeat constructor; cbn; try assumption; lia. }
-  assert (Hne : row_terms x y z w <> []).
-  { unfold row_terms. destruct (x =? 0) eqn:Ex, (y =? 0) eqn:Ey, (z =? 0) eqn:Ez; cbn [app]; try discriminate.
-    exfalso. apply Hnz. f_equal; [f_equal|]; lia. }
-  rewrite (parse_render (row_terms x y z w) true (0,0,0,0) 32); try assumption.
-  - f_equal. unfold row_terms.
-    destruct (x =? 0) eqn:Ex, (y =? 0) eqn:Ey, (z =? 0) eqn:Ez, (w =? 0) eqn:Ew; cbn [app fold_left term_apply term_nt add_at];
-      try (exfalso; apply Hnz; f_equal; [f_equal|]; lia);
-      (f_equal; [repeat match goal with |- (_, _) = (_, _) => f_equal end; lia|reflexivity]).
+  pose proof (row_terms_ok x y z w) as Hok.
+  rewrite (parse_render (row_terms x y z w) true (0,0,0,0) 32 _ Hok).
+  - rewrite row_terms_value, (row_terms_nt x y z w Hnz). reflexivity.
   - left; reflexivity.
   - pose proof (render_length (row_terms x y z w) true Hok). lia.
-  - intros _. exact Hne.
+  - intros _. apply row_terms_nonempty. exact Hnz.
+Qed.
+
+(* the same with any compatible incoming notation (second and third part of a triplet) *)
+Theorem row_roundtrip_nt : forall x y z w nt, nt_ok nt -> (x, y, z) <> (0, 0, 0) ->
+  parse_triplet_part (make_triplet_part (x, y, z) w 120) nt = Ok ((x, y, z, w), 120).
+Proof.
+  intros x y z w nt Hnt Hnz. rewrite make_part_is_render. unfold parse_triplet_part.
+  pose proof (row_terms_ok x y z w) as Hok.
+  rewrite (parse_render (row_terms x y z w) true (0,0,0,0) nt _ Hok Hnt).
+  - rewrite row_terms_value. f_equal. f_equal.
+    destruct Hnt as [->| ->]; [apply row_terms_nt; exact Hnz|apply term_nt_120].
+  - pose proof (render_length (row_terms x y z w) true Hok). lia.
+  - intros _. apply row_terms_nonempty. exact Hnz.
+Qed.
+
+(* ---- no commas inside a part ---- *)
+Definition no_comma (s : str) : Prop := Forall (fun c => (c =? 44) = false) s.
+
+Lemma no_comma_app : forall a b, no_comma a -> no_comma b -> no_comma (a ++ b).
+Proof. intros a b Ha Hb. apply Forall_app. split; assumption. Qed.
+
+Lemma no_comma_print_int : forall n, 0 < n -> no_comma (print_int n).
+Proof.
+  intros n Hn. rewrite (print_int_pos n Hn). destruct (print_nat_spec n Hn) as [_ [D _]].
+  unfold no_comma. eapply Forall_impl; [|exact D]. intros c Hc. unfold is_digit in Hc. lia.
+Qed.
+
+Lemma no_comma_frac_tail : forall d, good_den d -> no_comma (frac_tail d).
+Proof.
+  intros d Hd. unfold frac_tail. destruct (d =? 1) eqn:E; [constructor|].
+  constructor; [reflexivity|]. apply no_comma_print_int.
+  destruct Hd as [->|[->|[->|[->|[->|[->|[->| ->]]]]]]]; lia.
+Qed.
+
+Lemma no_comma_letter : forall i, is_axis i -> (letter_x i =? 44) = false.
+Proof. intros i [->|[->| ->]]; reflexivity. Qed.
+
+Lemma no_comma_rot_body : forall i v, is_axis i -> v <> 0 -> no_comma (rot_body i v).
+Proof.
+  intros i v Hi Hv. unfold rot_body. pose proof (no_comma_letter i Hi) as L.
+  destruct (Z.abs v =? DEN); [constructor; [exact L|constructor]|].
+  assert (Ha : 0 < Z.abs v) by lia.
+  pose proof (gof_facts (Z.abs v) Ha) as G. destruct (get_op_fraction (Z.abs v)) as [n d].
+  destruct G as [_ [G2 G3]]. cbn [fst snd].
+  destruct (n =? 1).
+  - apply no_comma_app; [constructor; [exact L|constructor]|].
+    apply no_comma_app; [constructor; [reflexivity|constructor]|].
+    apply no_comma_print_int. destruct G3 as [->|[->|[->|[->|[->|[->|[->| ->]]]]]]]; lia.
+  - rewrite append_fraction_nil. apply no_comma_app; [apply no_comma_app; [apply no_comma_print_int; exact G2|apply no_comma_frac_tail; exact G3]|].
+    apply no_comma_app; [constructor; [reflexivity|constructor]|constructor; [exact L|constructor]].
+Qed.
+
+Lemma no_comma_tran_body : forall w, w <> 0 -> no_comma (tran_body w).
+Proof.
+  intros w Hw. unfold tran_body. assert (Ha : 0 < Z.abs w) by lia.
+  pose proof (gof_facts (Z.abs w) Ha) as G. destruct (get_op_fraction (Z.abs w)) as [n d].
+  destruct G as [_ [G2 G3]]. rewrite append_fraction_nil.
+  apply no_comma_app; [apply no_comma_print_int; exact G2|apply no_comma_frac_tail; exact G3].
+Qed.
+
+Lemma no_comma_render : forall ts first, Forall term_ok ts -> no_comma (render first ts).
+Proof.
+  induction ts as [|t ts IH]; intros first Hok; cbn [render]; [constructor|].
+  pose proof (proj1 (Forall_cons_iff _ _ _) Hok) as [Ht Hts].
+  apply no_comma_app; [unfold sign_str; destruct (term_val t <? 0); [constructor; [reflexivity|constructor]|
+                       destruct first; [constructor|constructor; [reflexivity|constructor]]]|].
+  apply no_comma_app; [|apply IH; exact Hts].
+  destruct t as [i v|w]; cbn in *; [destruct Ht; apply no_comma_rot_body; assumption|apply no_comma_tran_body; assumption].
+Qed.
+
+Lemma no_comma_part : forall x y z w, no_comma (make_triplet_part (x, y, z) w 120).
+Proof. intros. rewrite make_part_is_render. apply no_comma_render. apply row_terms_ok. Qed.
+
+(* ---- splitting at the commas ---- *)
+Lemma split_on_no_sep : forall c acc, no_comma c -> split_on 44 c acc = [rev acc ++ c].
+Proof.
+  induction c as [|x c IH]; intros acc H; cbn [split_on]; [rewrite app_nil_r; reflexivity|].
+  pose proof (proj1 (Forall_cons_iff _ _ _) H) as [Hx Hc]. rewrite Hx.
+  rewrite (IH (x :: acc) Hc). cbn [rev]. rewrite <- app_assoc. reflexivity.
+Qed.
+
+Lemma split_on_sep : forall a rest acc, no_comma a ->
+  split_on 44 (a ++ 44 :: rest) acc = (rev acc ++ a) :: split_on 44 rest [].
+Proof.
+  induction a as [|x a IH]; intros rest acc H; cbn [split_on app].
+  - rewrite app_nil_r. reflexivity.
+  - pose proof (proj1 (Forall_cons_iff _ _ _) H) as [Hx Ha]. rewrite Hx.
+    rewrite (IH rest (x :: acc) Ha). cbn [rev]. rewrite <- app_assoc. reflexivity.
+Qed.
+
+Lemma count_no_comma : forall s, no_comma s -> count_occ_z 44 s = 0%nat.
+Proof.
+  unfold count_occ_z. induction s as [|x s IH]; intros H; [reflexivity|].
+  pose proof (proj1 (Forall_cons_iff _ _ _) H) as [Hx Hs]. cbn [filter].
+  rewrite Z.eqb_sym in Hx. rewrite Hx. apply IH. exact Hs.
+Qed.
+
+Lemma count_app : forall a b, count_occ_z 44 (a ++ b) = (count_occ_z 44 a + count_occ_z 44 b)%nat.
+Proof. intros. unfold count_occ_z. rewrite filter_app, app_length. reflexivity. Qed.
+
+(* ---- THE OPERATOR THEOREM (xyz notation): lossless triplet notation ---- *)
+Definition rows_nonzero (a : op) : Prop :=
+  let '(r0, r1, r2) := rot a in r0 <> (0,0,0) /\ r1 <> (0,0,0) /\ r2 <> (0,0,0).
+
+Theorem triplet_roundtrip_xyz : forall a, nt_ok (nota a) -> rows_nonzero a ->
+  exists s, triplet a 32 = Some s /\ parse_triplet s 32 = Ok (mkOp (rot a) (tran a) 120).
+Proof.
+  intros [[[r0 r1] r2] [[t0 t1] t2] nt] Hnt Hrows. cbn [nota] in Hnt. unfold rows_nonzero in Hrows.
+  cbn [rot] in Hrows. destruct Hrows as [H0 [H1 H2]].
+  destruct r0 as [[x0 y0] z0]. destruct r1 as [[x1 y1] z1]. destruct r2 as [[x2 y2] z2].
+  set (p0 := make_triplet_part (x0, y0, z0) t0 120).
+  set (p1 := make_triplet_part (x1, y1, z1) t1 120).
+  set (p2 := make_triplet_part (x2, y2, z2) t2 120).
+  exists (p0 ++ [44] ++ p1 ++ [44] ++ p2). split.
+  - unfold triplet, is_hkl. cbn [nota rot tran].
+    destruct Hnt as [->| ->]; reflexivity.
+  - pose proof (no_comma_part x0 y0 z0 t0) as N0. pose proof (no_comma_part x1 y1 z1 t1) as N1.
+    pose proof (no_comma_part x2 y2 z2 t2) as N2. fold p0 in N0. fold p1 in N1. fold p2 in N2.
+    unfold parse_triplet.
+    assert (Ec : count_occ_z 44 (p0 ++ [44] ++ p1 ++ [44] ++ p2) = 2%nat).
+    { rewrite !count_app, (count_no_comma p0 N0), (count_no_comma p1 N1), (count_no_comma p2 N2). reflexivity. }
+    rewrite Ec. cbn [Nat.eqb negb].
+    change (Z.land (Z.lor 32 32) (-4)) with 32. cbn [Z.eqb Pos.eqb orb negb].
+    change (p0 ++ [44] ++ p1 ++ [44] ++ p2) with (p0 ++ 44 :: (p1 ++ 44 :: p2)).
+    rewrite (split_on_sep p0 _ [] N0), (split_on_sep p1 _ [] N1), (split_on_no_sep p2 [] N2). cbn [rev app].
+    unfold p0, p1, p2.
+    rewrite (row_roundtrip_nt x0 y0 z0 t0 32 (or_introl eq_refl) H0).
+    rewrite (row_roundtrip_nt x1 y1 z1 t1 120 (or_intror eq_refl) H1).
+    rewrite (row_roundtrip_nt x2 y2 z2 t2 120 (or_intror eq_refl) H2).
+    reflexivity.
 Qed.
